@@ -137,3 +137,18 @@ Theorem c13_columns_exact_with_metadata_plain_items : forall noise e base s,
   script_pairs e false base [r_stmt noise s] = spec_pairs_md (e_cfg e) base s.
 Proof. exact lemma_B_md_plain. Qed.
 Print Assumptions c13_columns_exact_with_metadata_plain_items.
+
+(** * UPDATE / MERGE / SELECT .. INTO under an ARBITRARY metadata provider (Tree/LemmaADmlMeta.v): the table-level answer is the
+    specified one whatever the catalog holds, and two environments that differ only in the provider report the same tables. *)
+From SV Require Import Ast.SpecDml Tree.RenderDml Tree.LemmaADmlDefs Tree.LemmaADmlMeta.
+Theorem c13_exact_tables_any_provider_update_merge_select_into : lemma_A_dml_md_statement dml_ok.
+Proof. exact lemma_A_dml_any_provider. Qed.
+Print Assumptions c13_exact_tables_any_provider_update_merge_select_into.
+
+Theorem c13_metadata_never_changes_tables_of_update_merge : forall noise e e' d,
+  e_cfg e' = e_cfg e -> e_icfg e' = e_icfg e -> e_vertica e' = e_vertica e -> e_scalar e' = e_scalar e ->
+  noise_ok noise = true -> env_ok_md e = true -> dml_ok_base d = true ->
+  stmt_reads (analyze e false (r_dml noise d)) = stmt_reads (analyze e' false (r_dml noise d)) /\
+  stmt_writes (analyze e false (r_dml noise d)) = stmt_writes (analyze e' false (r_dml noise d)).
+Proof. exact metadata_never_changes_dml. Qed.
+Print Assumptions c13_metadata_never_changes_tables_of_update_merge.
